@@ -9,6 +9,19 @@ import FeVerif.Model.Header
 namespace FeVerif
 namespace Extract
 
+/-- What `MixedLogReader._read_next` does for one index entry at file offset `off`: seek, read the
+24-byte header (short read → skip), reject payload sizes above the sanity limit, read the payload
+(short read → skip), validate the CRC; on success the message's bytes are `data = header ++ payload`. -/
+def readEntry (file : Bytes) (off : Nat) : Option Bytes :=
+  if (file.drop off).length < HDR then none
+  else if u32le (file.drop off) 16 > MAX_EXPECTED then none
+  else if (file.drop off).length < HDR + u32le (file.drop off) 16 then none
+  else if pyCrcOk ((file.drop off).take (HDR + u32le (file.drop off) 16)) = true
+  then some ((file.drop off).take (HDR + u32le (file.drop off) 16)) else none
+
+/-- Iterating an index: the entries whose re-validation succeeds, in index order. -/
+def readIndexed (file : Bytes) (idx : List (Nat × Nat)) : List Bytes := idx.filterMap fun p => readEntry file p.1
+
 /-- The raw bytes of the messages the scan accepts, in order. -/
 def messages (input : Bytes) : List Bytes := (cfgFile.runFile input 0).map fun p => slice input p.1 p.2
 
